@@ -15,7 +15,7 @@ from .. import gen, build, refgeo as rg
 from ..mapmodel import MapModel
 
 ID = "C11"
-CASES = {"quick": 2400, "thorough": 120000}
+CASES = {"quick": 6000, "thorough": 120000}
 MIN_CASES_PER_SHARD = 50
 CASE_TIMEOUT = 30
 RULE = ("one case = one generated map (3..12 nodes; magnitudes: unit scale, projected metres ~1e7, degrees; classes: random, "
@@ -331,7 +331,7 @@ def check_case(ctx, case):
 
 
 TECHNIQUE = "runtime monitoring: reference-model oracle (dict-of-sets map model, full scan with reference geometry) over generated spatial queries on both backends"
-LEVEL_TEXT = ("2.4k (quick) / 120k (thorough) generated maps x ~4.5 queries x 2 backends x 2 query kinds, in unit-scale, 1e7-metre and degree "
+LEVEL_TEXT = ("{Q} (quick) / {T} (thorough) generated maps x ~4.5 queries x 2 backends x 2 query kinds, in unit-scale, 1e7-metre and degree "
               "magnitudes, with hostile classes (long edges through the disc, float32 index rounding at the box border, items exactly at "
               "the radius, infinite radius); every answer is compared item by item with a full scan using exact/vector geometry. "
               "Held-on-observed; recorded defects are matched by mechanism signature.")
